@@ -233,6 +233,7 @@ class Env:
         self.sock.subscribe_on_connection_changed(self.conn_sub)
         self.sock.subscribe_on_message_received(self.msg_sub)
         self.delivered = []
+        self.delivered_canon = []
 
     async def _conn_body(self, connected):
         if self.raise_conn_sub:
@@ -240,6 +241,11 @@ class Env:
 
     async def _msg_body(self, header, message):
         self.delivered.append(message)
+        try:
+            from canon import canon
+            self.delivered_canon.append(canon(header) + "|" + canon(message))
+        except Exception as e:  # noqa: BLE001
+            self.delivered_canon.append("uncanonical:%s" % type(e).__name__)
         if self.raise_msg_sub:
             raise RuntimeError("subscriber failure (injected)")
 
@@ -419,6 +425,10 @@ class Env:
                 # network events are processed one per loop iteration by a selector loop: task wake-ups
                 # scheduled by one event run before the next event is looked at
                 await asyncio.sleep(0)
+            elif k == "peerbytes":
+                c = self.latest()
+                if c is not None and not c.conn_lost:
+                    c.peer_send(bytes.fromhex(op[1]))
             elif k == "subraise":
                 if op[1] == "conn":
                     self.raise_conn_sub = bool(op[2])
@@ -499,7 +509,8 @@ class Env:
         lg = logging.getLogger("pyairtouch.comms.socket")
         lg.removeHandler(self.drop_handler)
         self.loop.close()
-        return {"steps": self.rec.steps, "census": self.census}
+        return {"steps": self.rec.steps, "census": self.census, "delivered": list(self.delivered_canon),
+                "unhandled": [str(c.get("message")) + ":" + type(c.get("exception")).__name__ for c in self.loop.unhandled]}
 
 
 def run_script(script, gen=4, idle_ticks=0):
